@@ -131,7 +131,9 @@ def make_obligation(cfg, rule, seed):
         try:
             M, T, info = target_and_circuit(cfg, rule, cfg.sym_op, symbolic=True)
         except R.HasMCM as ex:
-            return Outcome(DISCHARGED, "deferred-to-C13", f"rule contains mid-circuit measurements ({ex}); decided under C13")
+            # measurement-based rule: every outcome branch must be the operator, global phase included (shared with C13)
+            from contracts.C13 import make_ob as mcm_ob
+            return mcm_ob(cfg, rule, seed, pid="C10", strict_phase=True).fn()
         except Exception as ex:  # pylint: disable=broad-except
             # anything the symbolic run cannot carry (Unsupported, numpy refusing object dtype, ...): bounded stand-in: seeded float comparison of the real rule with the real matrix
             for _ in range(16):
